@@ -55,7 +55,7 @@ T0S = 1_700_000_000
 QSTART, QEND = T0MS - 1000, T0MS + 10 ** 7
 WORDPOOL = ["alpha", "beta", "gamma", "delta", "omega", "kappa", "sigma", "theta"]
 AS_CEILING = 24 << 30
-WORKERS = int(os.environ.get("VERIF_WORKERS", "0")) or min(vlib.NCPU, 8)
+WORKERS = int(os.environ.get("VERIF_WORKERS", "0"))      # 0: min(NCPU, 8) quick / min(NCPU, 12) thorough
 
 
 # --------------------------------------------------------------------------- data set
@@ -360,20 +360,13 @@ def enumerate_faults(files, tier, seed):
             enc = f["bytes"][12]
             csg_picks.setdefault(enc, fi)      # one file per block encoding (0 zstd, 1 dict, 2 timestamps)
     for enc, fi in csg_picks.items():
-        f = files[fi]
         if quick:
             continue
-        offs = [0, 1, 2, 3]
-        if not quick:
-            offs += [4, 8, 12, 13]
-            second = [r for r in f["regions"] if r["chunk"] == "cN" and r["region"] == "magic"]
-            if second:
-                offs += [second[0]["lo"]]
-        for o in offs:
+        for o in ([0, 1, 2, 3, 12] if enc == 2 else [0]):      # timestamp csg: every magic byte + the encoding byte; others: first byte
             full256.add((fi, o))
     if not quick:
         for fi, f in enumerate(files):
-            if f["kind"] not in ("csg", "segmeta", "mmeta") and f["kind"] not in seen_kind0:
+            if f["kind"] in ("bsu", "sst", "pqmr", "tso", "tsg") and f["kind"] not in seen_kind0:
                 seen_kind0.add(f["kind"])
                 full256.add((fi, 0))
 
@@ -403,14 +396,15 @@ def enumerate_faults(files, tier, seed):
                     hdr.update(range(r["lo"], r["hi"]))
         # truncations: new length L (the first removed byte is L)
         if not shared:
-            k = (3 if f["kind"] == "csg" else 11) if quick else 1     # checksummed files are sampled densely
+            # checksummed files are sampled densely; sort index / rollup files (never consumed by the query family) sparsely
+            k = (3 if f["kind"] == "csg" else 13) if quick else (4 if f["kind"] in ("srt", "crup") else 1)
             ph = rnd.randrange(k)
             for L in range(0, f["size"]):
                 if L in starts or L % k == ph:
                     r = region_at(f, L)
                     cases.append({"fi": fi, "fault": "trunc", "off": L, "val": None, "cls": cls_of(f, r, "trunc", L)})
         # single-byte modifications
-        k = 9 if quick else 1
+        k = 11 if quick else (4 if f["kind"] in ("srt", "crup") else 1)
         ph = rnd.randrange(k)
         for o in range(lo, hi):
             old = f["bytes"][o]
@@ -420,7 +414,12 @@ def enumerate_faults(files, tier, seed):
             else:
                 three = [old ^ 0x01, old ^ 0x80, rnd.choice([v for v in range(256) if v not in (old, old ^ 1, old ^ 0x80)])]
                 if not quick:
-                    vals = three
+                    if f["kind"] in ("srt", "crup"):
+                        vals = [three[0]] if o % k == ph else []
+                    elif f["kind"] in ("csg", "tso", "tsg", "tth", "mnm", "mbsu", "pqmr"):
+                        vals = three
+                    else:
+                        vals = [three[0], three[2]]
                 elif o in hdr or o in starts:
                     vals = [rnd.choice(three)]
                 elif o % k == ph:
@@ -650,9 +649,18 @@ class Oracle:
                 gmap = {p[0]: p[1] for p in s.get(gid, [])}
                 bmap = {p[0]: p[1] for p in pts}
                 extra = [t for t in gmap if t not in bmap]
+                # points of the undamaged segment that re-appear, unchanged, under a series the baseline does not have: the series was
+                # re-labelled with the (damaged) tags of the victim segment - the other segment's data is intact, its label set is
+                # not.  Counted as an altered answer from an un-checksummed file, not as "other segment affected".
+                moved = set()
+                for g2, pts2 in s.items():
+                    if g2 not in bs:
+                        moved |= {(p2[0], p2[1]) for p2 in pts2}
                 for p in pts:
                     if p[0] >= T0S + 900 and gmap.get(p[0]) != p[1]:
-                        if extra:
+                        if (p[0], p[1]) in moved:
+                            invented = invented or "series %s re-labelled: its datapoints are returned under a never-ingested label set" % gid
+                        elif extra:
                             invented = invented or "series %s ts=%s value bits %s, ingested %s (series also has invented points)" % (gid, p[0], gmap.get(p[0]), p[1])
                         else:
                             others_bad = others_bad or "series %s: datapoint ts=%s of the undamaged metrics segment: want %s got %s" % (gid, p[0], p[1], gmap.get(p[0]))
@@ -809,6 +817,7 @@ def run(chk):
                 raise vlib.Infra("baseline record differs from the ingested one: %s" % r)
 
         cases = enumerate_faults(files, chk.tier, chk.seed)
+        WORKERS = globals()["WORKERS"] or min(vlib.NCPU, 8 if quick else 12)
         vlib.log("[C18] %d files, %d bytes, %d fault cases, %d workers" % (len(files), sum(f["size"] for f in files), len(cases), WORKERS))
         t_start = time.time()
 
@@ -979,12 +988,13 @@ def run(chk):
                           "by a fresh engine process; distinct_nontrivial = model fault classes (kind/region/fault) in which at least one "
                           "injected fault changed an answer or raised an error (the damaged bytes were consumed by the query family)",
                      exhaustive=not quick,
-                     extra={"tier_plan": ("quick: first/last byte of every region + every 11th (csg: every 3rd) truncation length; chunk-header bytes, region boundaries + every 9th "
+                     extra={"tier_plan": ("quick: first/last byte of every region + every 13th (csg: every 3rd) truncation length; chunk-header bytes, region boundaries + every 11th "
                                           "offset with one of 3 values; model replay candidates (first byte of every csg := each encoding tag, 3 repeats)"
                                           if quick else
-                                          "thorough: every truncation length; 3 values at every offset; 256 values at chunk-0 magic/crc/len/enc "
-                                          "bytes and first later-chunk magic byte of one csg per encoding and at byte 0 of every other file kind; model "
-                                          "replay candidates with 6 repeats")})
+                                          "thorough: every truncation length; 3 values at every offset of csg, pqmr and metrics files, 2 values at every offset of "
+                                          "cmi/bsu/sst/sfm/segmeta/metricmeta, every 4th offset of the sort-index and rollup files (not consumed by the query "
+                                          "family); 256 values at every magic byte + the encoding byte of the timestamp csg, at byte 0 of one dictionary and one "
+                                          "zstd csg and of bsu/sst/pqmr/tso/tsg; model replay candidates with 6 repeats")})
     finally:
         vlib.rmtree(master)
         vlib.rmtree(work)
